@@ -69,7 +69,7 @@ void MakeList(char const* pSrcLine) {
         }
         ListPC = EProgCounter() - CodeLen;
         as_sdprcatf(
-                &list_buf, "%8.*" PRIx64 " %c ", ListRadixBase, ListPC,
+                &list_buf, "%8.*" PRIu64 " %c ", ListRadixBase, ListPC,
                 Retracted ? 'R' : ':');
 
         /* Extrawurst in Listing ? */
@@ -120,7 +120,7 @@ void MakeList(char const* pSrcLine) {
 
                 if (!First) {
                     as_sdprintf(
-                            &list_buf, "%*s%8.*" PRIx64 " %c ",
+                            &list_buf, "%*s%8.*" PRIu64 " %c ",
                             (ListMask & ListMask_LineNums) ? 9 : 3, "", ListRadixBase,
                             ListPC, Retracted ? 'R' : ':');
                 }
@@ -143,7 +143,7 @@ void MakeList(char const* pSrcLine) {
                             ThisWord = BAsmCode[Index];
                         }
                         as_sdprcatf(
-                                &list_buf, "%0*.*" PRIx64 " ", SystemListLen,
+                                &list_buf, "%0*.*" PRIu64 " ", SystemListLen,
                                 ListRadixBase, ThisWord);
                     } else {
                         as_sdprcatf(&list_buf, "%*s", SystemListLen + 1, "");
